@@ -83,7 +83,9 @@ _HTTP_BOUND = ("WSGI request histories of <= 5 PUT/DELETE (conditional and uncon
 PROPS["C01"]["functions"] += [WEB + "StoreBasedCollection.create_member", WEB + "StoreBasedCollection.delete_member",
                               WEB + "XandikosBackend.get_resource", W + "PutMethod.handle", W + "DeleteMethod.handle",
                               W + "MkcolMethod.handle"]
-PROPS["C02"]["functions"] += [WEB + "StoreBasedCollection.get_etag", WEB + "StoreBasedCollection.iter_differences_since"]
+PROPS["C02"]["functions"] += [WEB + "StoreBasedCollection.get_etag", WEB + "StoreBasedCollection.iter_differences_since",
+                              WEB + "StoreBasedCollection.members", WEB + "StoreBasedCollection.get_member"]
+PROPS["C01"]["functions"] += [WEB + "StoreBasedCollection.get_member", WEB + "StoreBasedCollection.members"]
 PROPS["C03"]["functions"] += [W + "PutMethod.handle", W + "DeleteMethod.handle", W + "WSGIRequest.__init__"]
 PROPS["C06"]["functions"] += [WEB + "ObjectResource.set_body", WEB + "StoreBasedCollection.create_member"]
 PROPS["C07"]["functions"] += [WEB + "StoreBasedCollection.iter_differences_since", WEB + "StoreBasedCollection.get_sync_token",
@@ -102,9 +104,13 @@ PROPS["C12"] = {
                   "xandikos.carddav.apply_prop_filter", "xandikos.carddav.apply_filter"],
     "explanation": "Filter evaluation (match types, collations incl. totality on non-ASCII text, negate, param-filter, "
                    "prop-filter over property instances, anyof/allof, only address objects match) is discharged against an "
-                   "RFC 6352 specification; the report driver (nresults, address-data rendering) is not under contract; two "
-                   "deviations are known findings (text is matched against str(content_line); prop-filter test attribute ignored).",
+                   "RFC 6352 specification; the report driver (nresults, address-data rendering) and the parsing of stored cards are "
+                   "covered by the bounded addressbook-query explorer only. The prop-filter `test` attribute is not looked at by "
+                   "the code (all listed conditions must hold for one instance): stated in the contract, not decided.",
 }
+for _f in PROPS["C12"]["functions"]:
+    PROPS["C12"].setdefault("replay", {})[_f] = "card_filters.py"
+    PROPS["C12"].setdefault("standins", {})[_f] = {"driver": "card_filters.py", "bound": "addressbook-query explorer (90 filters x 5 cards through the WSGI application)"}
 _FB = "xandikos.store.config.FileBasedCollectionMetadata."
 _RM = "xandikos.store.git.RepoCollectionMetadata."
 PROPS["C15"] = {
@@ -234,7 +240,10 @@ PROPS["C13"] = {
     "level": "proof",
     "functions": [WEB + "XandikosBackend._map_to_file_path", WEB + "XandikosBackend.get_resource",
                   WEB + "XandikosBackend.create_collection", W + "MkcolMethod.handle",
-                  WEB + "StoreBasedCollection.delete_member"],
+                  WEB + "StoreBasedCollection.delete_member",
+                  # member level: the name a handler passes down is one path segment, and it reaches the store unchanged
+                  W + "PutMethod.handle", W + "DeleteMethod.handle", W + "PostMethod.handle",
+                  WEB + "StoreBasedCollection.create_member", G + "GitStore.import_one"],
     "assumptions": ["no symbolic links inside the data root", "dulwich and os primitives touch only the path they are given"],
     # 'a refused MKCOL creates nothing' is C01's obligation (where its known finding is listed)
     "exclude": ["nothing_created"],
@@ -295,6 +304,39 @@ for _pid, _sp in PROPS.items():
         if _f.startswith("xandikos.store.") or _f.startswith("xandikos.web.ObjectResource") or _f.startswith("xandikos.web.StoreBasedCollection"):
             _sp.setdefault("replay", {}).setdefault(_f, STORE_EXPLORE)
             _sp.setdefault("standins", {}).setdefault(_f, {"driver": STORE_EXPLORE, "bound": _STORE_BOUND})
+
+# End-to-end explorers that run on EVERY check of a property (labelled bounded, never counted as proved): they
+# cover the functions between the contracts - helpers, property handlers, report drivers, caches added later -
+# that carry no contract of their own.
+_HTTP_ALL = ("the whole HTTP explorer: " + _HTTP_BOUND + "; Depth 1 listings after MKCOL/MKCALENDAR/DELETE/restart; member names with "
+             "encoded separators and the reserved names .xandikos / .git (PUT, GET, DELETE); multiget with hrefs in sibling collections "
+             "sharing a name prefix compared with single-href multigets; tags of a collection deleted and re-created at the same URL")
+CARD_FILTERS = "card_filters.py"
+_CARD_BOUND = ("REPORT addressbook-query through the WSGI application on 5 stored cards (folded lines, escaped characters, non-ASCII names, "
+               "several EMAIL instances) x 90 filters (every match type / collation / negation, is-not-defined, param-filter, 60 seeded "
+               "pairs under anyof / allof / default, empty filter), address-data equal to the stored card, nresults=1; oracle = the "
+               "contract text of contracts/carddav_filters.py executed natively on the parsed cards")
+_ALWAYS = {
+    "C12": [("addressbook-query (HTTP)", CARD_FILTERS, _CARD_BOUND, {})],
+    "C01": [("request histories (store)", STORE_EXPLORE, _STORE_BOUND, {}), ("request histories (HTTP)", HTTP, _HTTP_ALL, {})],
+    "C02": [("etag views (store)", STORE_EXPLORE, _STORE_BOUND, {}), ("etag views (HTTP)", HTTP, _HTTP_ALL, {})],
+    "C03": [("conditional requests (store)", STORE_EXPLORE, _STORE_BOUND, {}), ("conditional requests (HTTP)", HTTP, _HTTP_ALL, {})],
+    "C04": [("write primitives (store)", STORE_EXPLORE, _STORE_BOUND, {})],
+    "C06": [("uid uniqueness (store)", STORE_EXPLORE, _STORE_BOUND, {})],
+    "C07": [("change lists (store)", STORE_EXPLORE, _STORE_BOUND, {"backends": ["tree-git", "bare-git"]})],
+    "C08": [("ctag (store)", STORE_EXPLORE, _STORE_BOUND, {"backends": ["tree-git", "bare-git"]}), ("tags over HTTP", HTTP, _HTTP_ALL, {})],
+    "C09": [("git history (store)", STORE_EXPLORE, _STORE_BOUND, {"backends": ["tree-git", "bare-git"]})],
+    "C13": [("confinement (HTTP)", HTTP, _HTTP_ALL, {})],
+    "C16": [("listings and hrefs (HTTP)", HTTP, _HTTP_ALL, {}), ("discovery hrefs", DISCOVERY, _DISC_BOUND, {})],
+    "C17": [("multiget (HTTP)", HTTP, _HTTP_ALL, {})],
+}
+for _pid, _lst in _ALWAYS.items():
+    for _label, _drv, _bound, _req in _lst:
+        PROPS[_pid].setdefault("bounded_always", {})[_label] = {"driver": _drv, "bound": _bound, "request": dict(_req)}
+# superseded by the entries above
+for _pid in ("C01", "C03", "C06"):
+    PROPS[_pid]["bounded_always"].pop(V + "_scan_uids", None)
+PROPS["C01"]["bounded_always"].pop("xandikos.store.Store.import_one (histories)", None)
 
 for _sp in PROPS.values():
     _seen = []
